@@ -230,10 +230,13 @@ func main() {
 			vo := ViolationOut{Scenario: sc.Name, Tier: *tier, Msgs: v.Msgs, Sig: sigOf(sc.Name, v.Msgs), Choices: v.Choices, Cost: v.Cost, Log: v.Log}
 			// determinism: the same choice sequence must reproduce the same observation 5 times
 			if sc.Direct == nil {
-				vo.Replays = confirm(sc, v)
-				if vo.Replays < 5 {
-					core.InternalError("violation in %s does not replay deterministically (%d/5)", sc.Name, vo.Replays)
+				n, canon := confirm(sc, v)
+				vo.Replays = n
+				if n < 5 || canon == nil {
+					core.InternalError("violation in %s does not replay deterministically (%d/5)", sc.Name, n)
 				}
+				vo.Msgs, vo.Log, vo.Choices = canon.Msgs, canon.Log, canon.Choices
+				vo.Sig = sigOf(sc.Name, canon.Msgs)
 			}
 			rep.Violations = append(rep.Violations, vo)
 		}
@@ -275,16 +278,42 @@ func sigOf(name string, msgs []string) string {
 	return name + " :: " + m
 }
 
-func confirm(sc *Scenario, v core.Violation) int {
+// confirm re-executes a violating choice sequence without state merging (a
+// pruned execution is completed this way): the first replay is the canonical
+// record and must contain the original complaints; four more replays must be
+// identical to it.  Returns the number of agreeing replays (5 = deterministic).
+func confirm(sc *Scenario, v core.Violation) (int, *core.Violation) {
+	var canon *core.Violation
 	same := 0
 	for i := 0; i < 5; i++ {
 		st := core.Explore(core.Options{Bound: 1 << 30, Prefix: v.Choices, Once: true}, sc.Body, sc.Check)
-		if len(st.Violations) == 1 && strings.Join(st.Violations[0].Msgs, "\n") == strings.Join(v.Msgs, "\n") &&
-			strings.Join(st.Violations[0].Log, "\n") == strings.Join(v.Log, "\n") {
+		if len(st.Violations) != 1 {
+			continue
+		}
+		r := st.Violations[0]
+		if canon == nil {
+			have := map[string]bool{}
+			for _, m := range r.Msgs {
+				have[m] = true
+			}
+			ok := true
+			for _, m := range v.Msgs {
+				if !have[m] {
+					ok = false
+				}
+			}
+			if !ok {
+				continue
+			}
+			canon = &r
+			same++
+			continue
+		}
+		if strings.Join(r.Msgs, "\n") == strings.Join(canon.Msgs, "\n") && strings.Join(r.Log, "\n") == strings.Join(canon.Log, "\n") {
 			same++
 		}
 	}
-	return same
+	return same, canon
 }
 
 func findScenario(p *Property, name string) *Scenario {
